@@ -225,9 +225,18 @@ fn strategy(thorough: bool) -> BoxedStrategy<Case> {
                 1 => Just(1100usize),
             ];
             let vol = prop_oneof![Just(1.0), Just(1000.0), 0.001f64..1e6];
-            (Just(cfg), any::<bool>(), prefix, zv, level, vol, flen, any::<u64>())
+            (Just(cfg), any::<bool>(), prefix, zv, level, vol, flen, any::<u64>(), 0usize..12)
         })
-        .prop_map(|(cfg, scalar, mut prefix, mut zv, level, vol, flat_len, neg_zero_mask)| {
+        .prop_map(|(cfg, scalar, mut prefix, mut zv, level, vol, flat_len, neg_zero_mask, coincide)| {
+            // the flat level already occurs (as a one-price bar) among the last few active bars, followed by at
+            // least one different bar: shortcuts keyed to 'incoming value equals outgoing value' meet it early
+            if coincide < 3 && prefix.len() >= 2 && zv.is_empty() && level != 0.0 {
+                let n = cfg.n();
+                let j = 1 + (neg_zero_mask as usize) % n.max(2).min(prefix.len() - 1).max(1);
+                let k = prefix.len() - 1 - j.min(prefix.len() - 1);
+                let vol0 = prefix[k].v;
+                prefix[k] = RawBar { o: level, h: level, l: level, c: level, v: vol0 };
+            }
             // an extreme price unit applies to the whole stream: the earlier activity is quoted in the same
             // unit (a flat stretch 300 orders of magnitude below the prefix would make e.g. the documented
             // PPO value itself exceed f64::MAX)
